@@ -255,3 +255,103 @@ def restore(obj, snapshot):
     elif isinstance(obj, set):
         obj.clear()
         obj.update(snapshot)
+
+
+# ---------------------------------------------------------------------------------------------
+# transient shared state: values that a call changes and puts back before it returns
+# ---------------------------------------------------------------------------------------------
+_SCALAR = (bool, int, float, str, bytes, type(None))
+
+
+def scalar_slots():
+    """[(namespace dict, key, label)] for every scalar (or small tuple / list / dict of scalars) held at module level, at
+    class level or on a module-level a5 instance inside the a5 package: the places where a flag, a mode switch, a
+    'current' value or a scratch record can live between two lines of one call."""
+    import sys
+    out = []
+    seen = set()
+    for mname, mod in sorted(sys.modules.items()):
+        if not (mname == "a5" or mname.startswith("a5.")) or mod is None:
+            continue
+        for k, v in list(vars(mod).items()):
+            if k.startswith("__"):
+                continue
+            if isinstance(v, type) and getattr(v, "__module__", None) == mname:
+                if id(v) in seen:
+                    continue
+                seen.add(id(v))
+                for ck, cv in list(vars(v).items()):
+                    if not ck.startswith("__") and _small(cv):
+                        out.append((v, ck, f"{mname}.{k}.{ck}", True))
+            elif _small(v):
+                out.append((vars(mod), k, f"{mname}.{k}", False))
+            elif _is_a5_instance(v) and hasattr(v, "__dict__") and id(v) not in seen:
+                seen.add(id(v))
+                for ik, iv in list(vars(v).items()):
+                    if _small(iv):
+                        out.append((vars(v), ik, f"{mname}.{k}.{ik}", False))
+    return out
+
+
+def _small(v):
+    if isinstance(v, _SCALAR):
+        return True
+    if isinstance(v, (tuple, list)) and len(v) <= 8:
+        return all(isinstance(x, _SCALAR) for x in v)
+    if isinstance(v, dict) and len(v) <= 8:
+        return all(isinstance(x, _SCALAR) for x in v.values())
+    return False
+
+
+def _read(slot):
+    holder, key, _label, is_class = slot
+    v = getattr(holder, key, None) if is_class else holder.get(key)
+    if isinstance(v, (list, dict)):
+        return repr(v)
+    return v
+
+
+def scan_transients(fn, max_events=6000):
+    """Runs fn() under a line tracer; at every line event inside the a5 package the scalar slots are compared with
+    their values at the start. -> {label: [event indices at which the slot differs from its start value]} for slots
+    that are back to the start value when fn returns (numbering as in sched.run_preempted without restrictions)."""
+    import sys
+    from lib import sched
+    root = sched._a5_root()
+    slots = scalar_slots()
+    base = [_read(s) for s in slots]
+    hits = {}
+    state = {"count": 0}
+
+    def local(frame, event, arg):
+        if event == "line":
+            k = state["count"]
+            if k < max_events:
+                for i, sl in enumerate(slots):
+                    v = _read(sl)
+                    b = base[i]
+                    if v is not b and (type(v) is not type(b) or v != b):
+                        hits.setdefault(i, []).append(k)
+            state["count"] = k + 1
+        return local
+
+    def glob(frame, event, arg):
+        if event == "call" and frame.f_code.co_filename.startswith(root):
+            return local
+        return None
+
+    sys.settrace(glob)
+    try:
+        try:
+            fn()
+        except Exception:  # noqa: BLE001
+            pass
+    finally:
+        sys.settrace(None)
+    out = {}
+    for i, ks in hits.items():
+        v = _read(slots[i])
+        b = base[i]
+        if v is b or (type(v) is type(b) and v == b):
+            out[slots[i][2]] = ks                      # changed during the call, restored at its end
+    return out
